@@ -293,11 +293,22 @@ impl CdnClient {
         key_directories(&hex::encode(key))?;
         let url = Self::build_url(endpoint, content_type, key);
 
+        // Last byte of the range; an empty range or one ending beyond u64::MAX
+        // cannot be expressed in a Range header
+        let last = length
+            .checked_sub(1)
+            .and_then(|len_minus_one| offset.checked_add(len_minus_one))
+            .ok_or_else(|| {
+                ProtocolError::Other(format!(
+                    "Invalid byte range: offset {offset}, length {length}"
+                ))
+            })?;
+
         let response = self
             .http_client
             .inner()
             .get(&url)
-            .header("Range", format!("bytes={}-{}", offset, offset + length - 1))
+            .header("Range", format!("bytes={offset}-{last}"))
             .send()
             .await?;
 
